@@ -197,6 +197,10 @@ def c04(res: CheckResult) -> None:
              list(DF.fam_shadow(res.tier, rng)), ic, verdicts=True, rng=rng)
     def_unit(res, "every placement of {absent, bare, pre, post} on every class of every shape (exhaustive)",
              list(DF.fam_hier_small(res.tier, rng)), ic, verdicts=True, rng=rng)
+    def_unit(res, "invariant lists along definition histories (every check_on combination): which members check them",
+             list(DF.fam_inv_lists(res.tier, rng)), ic, verdicts=True, rng=rng)
+    def_unit(res, "wrap table: which members of a class and of its sub-classes check the accumulated invariants",
+             list(DF.fam_wraptable(res.tier, rng)), ic, rng=rng)
 
 
 @check("C17")
@@ -225,6 +229,8 @@ def c18(res: CheckResult) -> None:
              list(DF.fam_stacks(res.tier, rng)), ic, verdicts=True, rng=rng)
     def_unit(res, "overrides carrying foreign functools.wraps decorators in hierarchies",
              list(DF.fam_foreign_hier(res.tier, rng)), ic, verdicts=True, rng=rng)
+    def_unit(res, "invariant lists along definition histories (every check_on combination), hand evaluation vs calls",
+             list(DF.fam_inv_lists(res.tier, rng)), ic, verdicts=True, rng=rng)
     def_unit(res, "registration hook: classes in modules with assorted names, with and without the metaclass",
              list(DF.fam_modules(res.tier, rng)), ic, rng=rng)
 
